@@ -47,7 +47,15 @@ func (s *worldState) Apply(i int, check bool) (vs []eng.Violation) {
 	if i >= len(ops) {
 		return []eng.Violation{{Assert: "harness/alphabet", Witness: "alphabet changed", Detail: fmt.Sprintf("op %d of %d", i, len(ops))}}
 	}
-	vs = ops[i].run()
+	func() {
+		defer func() {
+			if r := recover(); r != nil {
+				s.w.Poisoned = true
+				vs = append(vs, eng.Violation{Assert: "no-panic", Witness: "panic in " + labelClass(ops[i].label), Detail: fmt.Sprintf("%s: panic: %v", ops[i].label, r)})
+			}
+		}()
+		vs = ops[i].run()
+	}()
 	if check && !s.w.Poisoned {
 		vs = append(vs, s.check(s.w)...)
 	}
@@ -68,6 +76,16 @@ func (s *worldState) Close() {
 	for _, x := range s.extra {
 		x.Close()
 	}
+}
+
+// labelClass reduces a letter label to its kind (the part before any argument).
+func labelClass(l string) string {
+	for i, c := range l {
+		if c == '(' || c == '[' || c == ':' {
+			return l[:i]
+		}
+	}
+	return l
 }
 
 // txnOp wraps a transaction as an alphabet letter.
